@@ -604,7 +604,7 @@ func init() {
 				})
 			}
 		}
-		maxPl := 600
+		maxPl := 1500
 		if x.Thorough() {
 			maxPl = 8000
 		}
@@ -974,6 +974,15 @@ func init() {
 					p = genPacketFull(c.R, c.R.Pick(profOne, profTwo, profLegacy))
 				}
 				wf := c.Tagged("odd") == false
+				// now and then a payload beyond the usual allocation size classes
+				if c.R.Chance(1, 25) {
+					if x.Thorough() {
+						p.Payload = c.R.Bytes(c.R.Pick(1024, 4096, 9000, c.R.Range(1025, 20000)))
+					} else {
+						p.Payload = c.R.Bytes(c.R.Pick(1024, 1500, c.R.Range(1025, 2048)))
+					}
+					c.Tag("payload=large")
+				}
 				if !p.H.Extension && c.R.Bool() {
 					p.H.ExtensionProfile = uint16(c.R.Intn(65536))
 				}
